@@ -7,6 +7,10 @@ import (
 	"github.com/mgtv-tech/redis-GunYu/verifshim/mc"
 )
 
+// pureChecks: checks registered by init() of the harness files that are part of the
+// build (so that a check's harness_files need not list every other check's file).
+var pureChecks = map[string]func(*mc.Reporter){}
+
 // TestVerif dispatches on VERIF_CHECK.
 func TestVerif(t *testing.T) {
 	check := os.Getenv("VERIF_CHECK")
@@ -19,6 +23,10 @@ func TestVerif(t *testing.T) {
 	case "C11":
 		runC11(rep)
 	default:
+		if fn, ok := pureChecks[check]; ok {
+			fn(rep)
+			return
+		}
 		rep.Machinery("unknown check "+check, nil)
 	}
 }
